@@ -8,35 +8,7 @@ from harness import common, core, gens, schemes, text, vers
 MAVEN_DOC = re.compile(r"^\d+(\.\d+)*(-[a-z]+\d*)*$")
 
 
-def excluded(name, a, b):
-    """the two sub-domains the property excludes"""
-    if name == "ArchLinuxVersion":
-        def has_rel(v):
-            s = v.value.split(":", 1)[-1]
-            return "-" in s
-        return has_rel(a) != has_rel(b)
-    if name == "ConanVersion":
-        def split(t):
-            build = pre = None
-            it = t.rsplit("+", 1)
-            if len(it) == 2:
-                t, build = it
-            it = t.rsplit("-", 1)
-            if len(it) == 2:
-                t, pre = it
-            return t.split("."), pre, build
-
-        def mixed(x, y):
-            (ix, px, bx), (iy, py, by) = split(x), split(y)
-            if any(p.isdigit() != q.isdigit() for p, q in zip(ix, iy)):
-                return True
-            if px is not None and py is not None and mixed(px, py):
-                return True
-            if bx is not None and by is not None and mixed(bx, by):
-                return True
-            return False
-        return mixed(a.value._value, b.value._value)
-    return False
+excluded = gens.order_excluded
 
 
 def lt(a, b):
